@@ -1116,7 +1116,9 @@ def oracle_tabulation(r):
             m = np.kron(ka, kb) @ m
             if i != len(loc) - 1:
                 m = base @ m
-        _cmp("TwoQubitGateTabulationResult: product of local_unitaries and base gate vs actual_gate", m, res.actual_gate, 1e-7, False)
+        # "U_target ~ k_N U_base ... k_0": the routine rescales actual_gate by the conjugate KAK phase of the target,
+        # so only equality up to a global phase is demanded
+        _cmp("TwoQubitGateTabulationResult: product of local_unitaries and base gate vs actual_gate", m, res.actual_gate, 1e-7, True)
         if res.success:
             nsucc += 1
             fid = abs(np.trace(u.conj().T @ res.actual_gate)) ** 2
